@@ -34,7 +34,19 @@ RULE = ('channel matrix: every DTML access channel (name lookup in client/client
         'container type, client tuple, tree width, numbers); every case is rendered under three assignments '
         'of the refused values (alt: under both refusal tables, interleaved); a case is non-trivial when the '
         'targeted datum was reached (guard decision, raw read or leak); distinct = (channel, kind, '
-        'configuration, pattern, graph seed)')
+        'configuration, pattern, graph seed).  DERIVED channels: every channel of that matrix is repeated '
+        '(a) for every kind of thing a dtml-in can run over, when its loop is over items the guard may refuse '
+        '(objects, mappings, str/int items read as sequence-item) or over the all-public sequence: generator, '
+        'list iterator, map object, dict, keys/values/items views, __iter__-only and __getitem__-only objects, '
+        '(key, item) pairs in a sequence / generator; (b) for the children of a tree node handed out as tuple / '
+        'as a sequence of unknown type; (c) inside every namespace-changing construct around it: with '
+        '{mapping, object, expr, _.namespace} x {only, not only} in both option orders, two nested `only`s in '
+        'both orders, in mapping / in object, `only` then in, let, if, try (`space` / `holder` = the whole '
+        'namespace once more as a dict / as attributes of one object).  Oracle and classification are '
+        'inherited.  Of the derived matrix each graph variant renders the cells of one residue class '
+        '(1/SAMPLE, class moving by one per variant; small classes completely); finish() recomputes the plan '
+        'and demands every planned cell, and per derivation a public control rendered as expected, guard-log '
+        'entries and a refused datum reached')
 ASSUMPTIONS = [
     'a helper template is only required to honour the CALLER\'s guard when it is given the namespace '
     '(found by name or called with `_`); helper(ob) without the namespace is a new top-level rendering '
@@ -46,12 +58,21 @@ ASSUMPTIONS = [
     'per-item variables, sort keys, fmt= and tree attributes only',
     'sequence-start staying true after a skipped first item (DESIGN finding 12) does not depend on '
     'refused VALUES and is not asserted here (it belongs to C10)',
+    'the recording guard refuses a (key, item) pair when it refuses the item; for items of basic type '
+    '(str, int) and for pairs the RestrictedDTML configuration is only asserted while the loop runs over the '
+    'given container or the package\'s own wrapper of an iterable: after reverse / sort the engine loops '
+    'over a plain list, and AccessControl\'s guarded_getitem hands str / int / tuple items of a plain list out '
+    'without asking the policy (class-hook configuration asserted there)',
+    'statistics do not unpack (key, item) pairs (nothing is read), so the statistics channels are not '
+    'repeated for the pair kinds of iterables',
     'the guard refuses _names itself (as AccessControl does); _.getattr(o, "_x") is therefore only '
     'required to end in a refusal, not to be rejected at compile time',
 ]
 SHARD_TIMEOUT = {'quick': 600, 'thorough': 3000}
 NSHARDS = {'quick': 16, 'thorough': 16}
 VARIANTS = {'quick': 4, 'thorough': 100}
+SAMPLE = {'quick': 8, 'thorough': 24}      # share of the derived matrix taken per graph variant: 1/SAMPLE
+UNSAMPLED = ('children',)                  # small classes of derived channels: complete in every variant
 GUARDED = ('hook', 'zope')
 
 STATS = ('total', 'count', 'min', 'max', 'median', 'mean', 'variance', 'variance-n',
@@ -78,6 +99,8 @@ class Ch:
         self.entity = entity
         self.raises = raises          # the public variant is expected to raise (dtml-raise)
         self.helper = helper          # (helper class cfg, flavour, helper source): ns['helper']
+        self.deriv = None             # derived channels: (class of derivation, its name)
+        self.base = None              # ... and the id of the channel of the hand-written matrix
         # 'alt' kind: the decision for one name alternates per object and flips between two renders
         # of the same compiled template (guarded configurations only)
         if ('den' in kinds and 'pub' in kinds and not info and not self.positional()
@@ -87,7 +110,18 @@ class Ch:
     def positional(self):
         """Channels about refused ITEMS: rendered for every position pattern of the refused ones."""
         src = self.src + (self.helper[2] if self.helper else '')
-        return any(t in src for t in ('@Q@', '@PQ@', '@MQ@', '@B@'))
+        return any(t in src for t in ('@Q@', '@PQ@', '@MQ@', '@B@', '@W@'))
+
+    def derive(self, cls, name, src=None, helper=None):
+        """The same channel in another setting (iterable kind / enclosing namespace construct):
+        everything but the source text is inherited, so are oracle and classification."""
+        ch = Ch('%s@%s' % (self.id, name), self.fam, self.src if src is None else src, client=self.client,
+                kinds=tuple(k for k in self.kinds if k != 'alt'), expect=self.expect, flavour=self.flavour,
+                extra=self.extra, us=self.us, info=self.info, cfgs=self.cfgs, needs=self.needs,
+                raises=self.raises, helper=self.helper if helper is None else helper)
+        ch.deriv = (cls, name)
+        ch.base = self.id
+        return ch
 
 
 def P(tag, name):
@@ -267,6 +301,32 @@ def channels():
     add(Ch('in.item.index-item.step', 'seqvar-item',
            '<dtml-in @PQ@ size=2 start=@pn@ skip_unauthorized>[<dtml-var sequence-step-start-item>]</dtml-in>',
            kinds=('pub', 'den'), cfgs=X, needs=lambda p: p['lo'] + 2 <= p['n']))
+    # ---- items of basic type (strings, numbers): not wrapped, the body reads sequence-item
+    W0 = '[' + P('w0', 'item') + ']'
+    add(Ch('in.word', 'in-item', '<dtml-in @W@>[<dtml-var sequence-item>]</dtml-in>', kinds=('pub', 'den'),
+           expect=[W0 + '[4]'], cfgs=X))
+    add(Ch('in.word.skip', 'in-item', '<dtml-in @W@ skip_unauthorized>[&dtml-sequence-item;]</dtml-in>',
+           kinds=('pub', 'den'), expect=[W0 + '[4]'], cfgs=X))
+    add(Ch('in.word.batch.skip', 'in-item',
+           '<dtml-in @W@ size=@n1@ start=1 skip_unauthorized>[<dtml-var sequence-item>:<dtml-var sequence-index>]'
+           '</dtml-in>', kinds=('pub', 'den'), expect=['[' + P('w0', 'item') + ':0][4:1]'], cfgs=X))
+    add(Ch('in.word.batch', 'in-item',
+           '<dtml-in @W@ size=3 start=1 orphan=0>[<dtml-var sequence-item>]</dtml-in>', kinds=('pub', 'den'),
+           expect=[W0 + '[4]'], cfgs=X))
+    # (reverse / sort hand a plain list of the items to the loop, and AccessControl's guarded_getitem
+    # passes str / int / tuple items of a plain list without asking the policy: class hooks only)
+    add(Ch('in.word.reverse.skip', 'in-item',
+           '<dtml-in @W@ reverse skip_unauthorized>[<dtml-var sequence-item>]</dtml-in>', kinds=('pub', 'den'),
+           expect=['[4]' + W0], cfgs=('hook',)))
+    add(Ch('in.word.spy', 'in-item',
+           '<dtml-in @W@ skip_unauthorized><dtml-call "spy(_[\'sequence-item\'])"></dtml-in>ok',
+           kinds=('pub', 'den'), expect=['ok'], cfgs=X))
+    add(Ch('in.word.prefix', 'in-item',
+           '<dtml-in @W@ prefix=row skip_unauthorized>[<dtml-var row_item>:<dtml-var row_index>]</dtml-in>',
+           kinds=('pub', 'den'), expect=['[' + P('w0', 'item') + ':0][4:1]'], cfgs=X))
+    add(Ch('in.word.expr', 'in-item',
+           '<dtml-in expr="@W@" skip_unauthorized>[<dtml-var sequence-item>]</dtml-in>', kinds=('pub', 'den'),
+           expect=[W0 + '[4]'], cfgs=X))
     # ---- item body name lookup
     add(Ch('in.body.name', 'name', '<dtml-in seq>[<dtml-var @s@>]</dtml-in>', expect=[P('i0', 's_pub')],
            entity=True))
@@ -471,14 +531,97 @@ def channels():
     return out
 
 
+# ---------------------------------------------------------------- derived channels
+# (1) what a dtml-in runs over: every channel whose loop is over @Q@ / @MQ@ / @W@ (items the guard may
+#     refuse) or over the all-public `seq` (attributes of the items) is repeated for every kind of
+#     iterable of U.SRC_KINDS (generator, iterator, map object, dict, dict views, __iter__-only and
+#     __getitem__-only objects, (key, item) pairs in a sequence / generator / items view)
+IN_TAG = re.compile(r'(<dtml-in (?:expr=")?)(@Q@|@MQ@|@W@|seq)(?![A-Za-z0-9_@])')
+REBUILT = re.compile(r'<dtml-in [^>]*\b(reverse|sort|sort_expr)\b')
+# (2) the shape of the children list of a tree node
+TREE_TAG = re.compile(r'(branches=)(@B@)')
+# (3) the construct around the channel: with / in / let / if in every combination of the options that
+#     change the namespace (`space` = the whole namespace as a dict, `holder` = the same as attributes
+#     of an object).  `only` starts a NEW namespace, which has to carry the guards.
+WRAPPERS = (
+    ('with-mapping-only', '<dtml-with space mapping only>', '</dtml-with>'),
+    ('with-only-mapping', '<dtml-with space only mapping>', '</dtml-with>'),
+    ('with-expr-mapping-only', '<dtml-with expr="space" mapping only>', '</dtml-with>'),
+    ('with-object-only', '<dtml-with holder only>', '</dtml-with>'),
+    ('with-namespace-only', '<dtml-with "_.namespace(**space)" only>', '</dtml-with>'),
+    ('with-mapping', '<dtml-with space mapping>', '</dtml-with>'),
+    ('with-object', '<dtml-with holder>', '</dtml-with>'),
+    ('with-object-only/with-mapping-only', '<dtml-with holder only><dtml-with space mapping only>',
+     '</dtml-with></dtml-with>'),
+    ('with-mapping-only/with-object-only', '<dtml-with space mapping only><dtml-with holder only>',
+     '</dtml-with></dtml-with>'),
+    ('with-mapping-only/in-object', '<dtml-with space mapping only><dtml-in holders>',
+     '</dtml-in></dtml-with>'),
+    ('in-mapping', '<dtml-in spaces mapping>', '</dtml-in>'),
+    ('in-object', '<dtml-in holders>', '</dtml-in>'),
+    ('let', '<dtml-let unused="1">', '</dtml-let>'),
+    ('if', '<dtml-if "1">', '</dtml-if>'),
+    ('try', '<dtml-try>', '<dtml-finally></dtml-try>'),
+)
+
+
+def derived(ch):
+    """Derived channels of one channel of the hand-written matrix."""
+    out = []
+    if ch.info or ch.flavour != 'HTML':
+        return out
+    hsrc = ch.helper[2] if ch.helper else ''
+    if IN_TAG.search(ch.src) or IN_TAG.search(hsrc):
+        for kind in U.SRC_KINDS:
+            if kind in U.PAIR_KINDS and ch.fam == 'stats':
+                continue        # statistics do not unpack (key, item) pairs: nothing to read
+            rep = r'\1\2_%s' % kind
+            d = ch.derive('source', kind, src=IN_TAG.sub(rep, ch.src),
+                          helper=(ch.helper[0], ch.helper[1], IN_TAG.sub(rep, hsrc)) if ch.helper else None)
+            if kind in U.PAIR_KINDS and REBUILT.search(ch.src + hsrc) and ch.positional():
+                # pairs in the plain list that reverse / sort build: see in.word.reverse.skip
+                d.cfgs = tuple(c_ for c_ in d.cfgs if c_ != 'zope')
+            out.append(d)
+    if TREE_TAG.search(ch.src):
+        for kind in U.TREE_KINDS:
+            out.append(ch.derive('children', kind, src=TREE_TAG.sub(r'\1\2_%s' % kind, ch.src)))
+    if not ch.client:
+        for name, pre, post in WRAPPERS:
+            out.append(ch.derive('around', name, src=pre + ch.src + post))
+    return out
+
+
+DERIVATIONS = ([('source', k) for k in U.SRC_KINDS] + [('children', k) for k in U.TREE_KINDS]
+               + [('around', w_[0]) for w_ in WRAPPERS])
 CHANNELS = None
+MATRIX = None
 
 
 def all_channels():
+    """The hand-written matrix."""
     global CHANNELS
     if CHANNELS is None:
         CHANNELS = channels()
     return CHANNELS
+
+
+def full_matrix():
+    """Hand-written matrix followed by every derived channel."""
+    global MATRIX
+    if MATRIX is None:
+        MATRIX = list(all_channels())
+        for ch in all_channels():
+            MATRIX.extend(derived(ch))
+        ids = [ch.id for ch in MATRIX]
+        assert len(ids) == len(set(ids)), 'duplicate channel id'
+    return MATRIX
+
+
+def find_channel(cid):
+    for ch in full_matrix():
+        if ch.id == cid:
+            return ch
+    return None
 
 
 def combos(ch):
@@ -506,7 +649,8 @@ def subst(src, kind, p):
         out = out.replace('@%s@' % fam, U.aname(fam, kind))
     den = kind == 'den'
     rep = {'@Q@': 'dseq' if den else 'seq', '@PQ@': 'dpseq' if den else 'pseq',
-           '@MQ@': 'dmseq' if den else 'mseq', '@U@': 'ou_den' if den else 'ou_pub',
+           '@MQ@': 'dmseq' if den else 'mseq', '@W@': 'dwseq' if den else 'wseq',
+           '@U@': 'ou_den' if den else 'ou_pub',
            '@K@': 'key_den' if den else 'key_pub', '@B@': 'b_mix' if den else 'b_pub',
            '@ix@': str(p['lo'] if den else 0), '@pa@': str(p['hi'] + 2), '@pb@': str(p['lo']),
            '@pn@': str(p['lo'] + 1), '@n1@': str(p['n'])}
@@ -516,7 +660,9 @@ def subst(src, kind, p):
 
 
 TEMPLATES = {}
-NAME_RE = re.compile(r'\b(o|oz|seq|pseq|tseq|dseq|dpseq|mseq|dmseq|mp|md_map|ou_pub|ou_den|root)\b')
+NAME_RE = re.compile(r'\b(o|oz|seq|pseq|tseq|dseq|dpseq|mseq|dmseq|wseq|dwseq|mp|md_map|ou_pub|ou_den|root|%s)\b'
+                     % '|'.join('%s_%s' % (b, k) for b in U.SEQ_BASES for k in U.SRC_KINDS))
+AROUND_RE = re.compile(r'\b(space|spaces|holder|holders)\b')
 
 
 def get_template(cfg, flavour, src):
@@ -549,13 +695,29 @@ def render(ch, kind, cfg, p, src, assign, flip=0):
         if ch.helper[0] == 'none':
             # the same compiled helper is first rendered on its own (top level, no guards: plain
             # access is legitimate there) and only then called by the guarded template
-            U.CURRENT[0] = U.World('none')
+            # (on data of its own: one-shot iterables would be used up)
+            w0 = U.CURRENT[0] = U.World('none')
             try:
-                helper(ns.get('o') or g.c, None, **ns)
+                g0 = U.Graph(cfg, assign, p, w0, need | {'client'}, flip=flip)
+                ns0 = dict(g0.ns)
+                ns0.update(ch.extra)
+                ns0['helper'] = helper
+                helper(ns0.get('o') or g0.c, None, **ns0)
             except Exception:
                 pass
             finally:
                 U.CURRENT[0] = None
+    around = set(AROUND_RE.findall(src))
+    if around:
+        # the whole namespace once more, as one mapping and as the attributes of one object
+        # (both know each other: the constructs nest)
+        space = dict(ns)
+        holder = U.PObj('holder', ns)
+        w.keep.append(holder)
+        both = {'space': space, 'spaces': [space], 'holder': holder, 'holders': [holder]}
+        space.update(both)
+        U.pdict(holder).update(both)
+        ns.update(both)
     out = exc = None
     U.CURRENT[0] = w
     try:
@@ -724,6 +886,8 @@ def run_case(ctx, ch, kind, cfg, gseed, pat=None, record=True):
     p = case_params(gseed, pat)
     if ch.needs is not None and not ch.needs(p):
         ctx.count('cases:not-applicable-for-graph')
+        if ch.deriv is not None:
+            ctx.count('derived cases not applicable for the graph')
         return
     src = subst(ch.src, kind, p)
     case = {'ch': ch.id, 'kind': kind, 'cfg': cfg, 'gseed': gseed, 'pat': pat, 'src': src, 'params': p}
@@ -813,18 +977,36 @@ def run_case(ctx, ch, kind, cfg, gseed, pat=None, record=True):
     ctx.case((ch.id, kind, cfg, gseed, pat), nontrivial)
     if pat:
         ctx.table('refused-item position patterns', '%s | %s' % (ch.fam, pat))
-    ctx.table('outcome %s' % kind, '%s | %s' % (ch.id, outcome))
     ctx.table('cases per configuration', cfg)
     ctx.table('cases per family', ch.fam)
-    ctx.table('channel cases', ch.id)
-    if cfg != 'none':
-        ctx.table('channel guard-log entries', ch.id, len(glog))
+    if ch.deriv is None:
+        ctx.table('outcome %s' % kind, '%s | %s' % (ch.id, outcome))
+        ctx.table('channel cases', ch.id)
+        if cfg != 'none':
+            ctx.table('channel guard-log entries', ch.id, len(glog))
+    else:
+        # derived channels are accounted for per derivation and per channel of the hand-written matrix
+        dname = '%s: %s' % ch.deriv
+        ctx.count('derived cases evaluated')
+        ctx.table('derived cases', dname)
+        ctx.table('derived cases per channel', ch.base)
+        if cfg != 'none':
+            ctx.table('derived guard-log entries', dname, len(glog))
+        if kind == 'pub':
+            if ch.expect and ok_expect:
+                ctx.table('derived cases: public control rendered as expected', dname)
+        elif nontrivial:
+            ctx.table('derived cases: refused / private datum reached', dname)
+        ctx.table('derived outcome %s' % kind, '%s | %s' % (dname, outcome))
     if problems:
         if ch.info:
             ctx.table('informational (statement silent)', '%s %s %s: differs' % (ch.id, kind, cfg))
         else:
             mech, evidence = classify(ch, kind, cfg, res)
-            ctx.table('channel leaks', ch.id)
+            if ch.deriv is None:
+                ctx.table('channel leaks', ch.id)
+            else:
+                ctx.table('derived leaks', '%s: %s' % ch.deriv)
             detail = {'observed': {'%d%s' % a: res[a]['text'][:400] for a in res},
                       'spy': {'%d%s' % a: res[a]['spy'][:6] for a in res},
                       'unmediated raw reads': [list(e) for e in evidence][:8],
@@ -850,15 +1032,29 @@ def U_short(obs):
 
 
 def case_list(tier, seed):
-    """Deterministic list of (variant gseed, channel index, kind, cfg)."""
+    """Deterministic list of (variant gseed, channel index, kind, cfg, pattern).  The hand-written matrix
+    is enumerated completely for every graph variant; of the derived channels every variant takes the
+    cells of one residue class (of SAMPLE[tier]) of a hash of the cell, the class moving on by one per
+    variant - SAMPLE consecutive variants enumerate the derived matrix completely."""
     import random
+    import zlib
     out = []
-    chs = all_channels()
+    chs = full_matrix()
+    k = SAMPLE[tier]
+    start = random.Random('c05/sample/%d' % seed).randrange(k)
+    cells = []
+    for ci, ch in enumerate(chs):
+        for kind, cfg, pat in combos(ch):
+            h = None
+            if ch.deriv is not None and ch.deriv[0] not in UNSAMPLED:
+                h = zlib.crc32(('%s|%s|%s|%s' % (ch.id, kind, cfg, pat)).encode('utf-8'))
+            cells.append((ci, kind, cfg, pat, h))
     for v in range(VARIANTS[tier]):
         gseed = 0 if v == 0 else random.Random('c05/%d/%d' % (seed, v)).getrandbits(30) + 1
-        for ci, ch in enumerate(chs):
-            for kind, cfg, pat in combos(ch):
-                out.append((gseed, ci, kind, cfg, pat))
+        for ci, kind, cfg, pat, h in cells:
+            if h is not None and (h + start + v) % k:
+                continue
+            out.append((gseed, ci, kind, cfg, pat))
     return out
 
 
@@ -869,18 +1065,26 @@ def run(ctx, spec):
     from vlib.reach import Reach
     U.install_policy()
     reach = Reach()
-    reach.watch('InstanceDict.__getitem__', DTc.InstanceDict.__getitem__)
-    reach.watch('Eval.eval', DT_Util.Eval.eval)
-    reach.watch('InClass.renderwb', DT_In.InClass.renderwb)
-    reach.watch('InClass.renderwob', DT_In.InClass.renderwob)
-    reach.watch('InClass.sort_sequence', DT_In.InClass.sort_sequence)
-    reach.watch('With.render', DT_With.With.render)
-    reach.watch('Var.render', DT_Var.Var.render)
-    reach.watch('sequence_variables.value', DT_InSV.sequence_variables.value)
-    reach.watch('sequence_variables.statistics', DT_InSV.sequence_variables.statistics)
-    reach.watch('tpRenderTABLE', TreeTag.tpRenderTABLE)
+    # diagnosis only: an anchor a refactoring has renamed is noted, not fatal
+    for label, mod, path in (('InstanceDict.__getitem__', DTc, 'InstanceDict.__getitem__'),
+                             ('Eval.eval', DT_Util, 'Eval.eval'),
+                             ('InClass.renderwb', DT_In, 'InClass.renderwb'),
+                             ('InClass.renderwob', DT_In, 'InClass.renderwob'),
+                             ('InClass.sort_sequence', DT_In, 'InClass.sort_sequence'),
+                             ('With.render', DT_With, 'With.render'),
+                             ('Var.render', DT_Var, 'Var.render'),
+                             ('sequence_variables.value', DT_InSV, 'sequence_variables.value'),
+                             ('sequence_variables.statistics', DT_InSV, 'sequence_variables.statistics'),
+                             ('tpRenderTABLE', TreeTag, 'tpRenderTABLE')):
+        fn = mod
+        for part in path.split('.'):
+            fn = getattr(fn, part, None)
+        if fn is None or not hasattr(fn, '__code__'):
+            ctx.count('reach anchor missing: ' + label)
+            continue
+        reach.watch(label, fn)
     reach.start()
-    chs = all_channels()
+    chs = full_matrix()
     for i, (gseed, ci, kind, cfg, pat) in enumerate(case_list(ctx.tier, ctx.seed)):
         if i % ctx.nshards != ctx.shard:
             continue
@@ -893,11 +1097,12 @@ def finish(agg):
     c = agg['counters']
     t = agg['tables']
     inc = []
-    for r in ('InstanceDict.__getitem__', 'Eval.eval', 'InClass.renderwb', 'InClass.renderwob',
-              'InClass.sort_sequence', 'With.render', 'Var.render', 'sequence_variables.value',
-              'sequence_variables.statistics', 'tpRenderTABLE'):
-        if not c.get('reach:' + r):
-            inc.append('anchor never entered: ' + r)
+    # anchors inside the engine are diagnosis (a harmless refactoring may rename them): the verdict on
+    # reach is taken from the output-level counters below (channel rendered, public control as expected,
+    # guard consulted, refused datum reached)
+    unreached = [r for r in ('InstanceDict.__getitem__', 'Eval.eval', 'InClass.renderwb', 'InClass.renderwob',
+                             'InClass.sort_sequence', 'With.render', 'Var.render', 'sequence_variables.value',
+                             'sequence_variables.statistics', 'tpRenderTABLE') if not c.get('reach:' + r)]
     if not c.get('guard refusals'):
         inc.append('the recording guard never refused anything')
     routes = t.get('guard routes', {})
@@ -935,20 +1140,52 @@ def finish(agg):
     for cid, o in live.items():
         if o <= {'untouched'} and cid not in info:
             inc.append('public control of channel %s never read its attribute' % cid)
+    # derived channels: everything planned was evaluated, and every derivation has rendered its public
+    # controls as expected, consulted the guard and reached refused data
+    full = full_matrix()
+    planned = sum(1 for gseed, ci, kind, cfg, pat in case_list(agg['tier'], agg['seed'])
+                  if full[ci].deriv is not None)
+    done = c.get('derived cases evaluated', 0) + c.get('derived cases not applicable for the graph', 0)
+    if done != planned:
+        inc.append('derived channels: %d cases planned, %d evaluated' % (planned, done))
+    dleaks = t.get('derived leaks', {})
+    for cls, name in DERIVATIONS:
+        dname = '%s: %s' % (cls, name)
+        if not t.get('derived cases', {}).get(dname):
+            inc.append('derivation never rendered: ' + dname)
+            continue
+        if not t.get('derived cases: public control rendered as expected', {}).get(dname):
+            inc.append('derivation without a public control rendered as expected: ' + dname)
+        if not t.get('derived guard-log entries', {}).get(dname) and not dleaks.get(dname):
+            inc.append('guard log empty for derivation ' + dname)
+        if not t.get('derived cases: refused / private datum reached', {}).get(dname):
+            inc.append('derivation never reached a refused datum: ' + dname)
+    per_base = t.get('derived cases per channel', {})
+    for ch in chs:
+        if derived(ch) and not per_base.get(ch.id):
+            inc.append('no derived case rendered for channel ' + ch.id)
     ncombo = sum(len(list(combos(ch))) for ch in chs)
     return {'inconclusive': inc,
             'coverage': {'channels': len(chs), 'channel_kind_configuration_cells': ncombo,
+                         'engine_anchors_never_entered (diagnosis only)': unreached,
+                         'derived_channels': len(full) - len(chs),
+                         'derived_cells': sum(len(list(combos(ch))) for ch in full if ch.deriv is not None),
+                         'derived_cells_share_per_variant': '1/%d' % SAMPLE[agg['tier']],
+                         'derivations': ['%s: %s' % d for d in DERIVATIONS],
                          'graph_variants': VARIANTS[agg['tier']],
-                         'exhaustive': 'the channel x kind x configuration matrix is enumerated completely '
-                                       'for every graph variant; graphs beyond the canonical one are seeded',
+                         'exhaustive': 'the hand-written channel x kind x configuration matrix is enumerated '
+                                       'completely for every graph variant; the derived matrix (channel x '
+                                       'iterable kind / children shape / enclosing construct) is enumerated '
+                                       'once per SAMPLE consecutive variants; graphs beyond the canonical one '
+                                       'are seeded',
                          'families': sorted(set(ch.fam for ch in chs))}}
 
 
 def replay(ctx, rep):
     U.install_policy()
     c = rep['case']
-    for ch in all_channels():
-        if ch.id == c['ch']:
-            run_case(ctx, ch, c['kind'], c['cfg'], c['gseed'], c.get('pat'), record=False)
-            return
+    ch = find_channel(c['ch'])
+    if ch is not None:
+        run_case(ctx, ch, c['kind'], c['cfg'], c['gseed'], c.get('pat'), record=False)
+        return
     ctx.inconclusive('unknown channel in replay: %r' % (c.get('ch'),))
